@@ -57,7 +57,18 @@ function nestSrc(kind, depth) {
 }
 const DEPTHS = [1, 2, 3, 4, 8, 16, 32, 64, 96, 128, 192, 256];
 
+// ---- (x) cross-request interference: the same source under two option sets, one after the other in one process
+const X_OPTS = { none: {}, px: { customElementPatterns: ['^x-'] }, py: { customElementPatterns: ['^y-'] }, pxOpt: { customElementPatterns: ['^x-'], optimize: true }, prag: { pragma: 'h' }, ton: { transformOn: true }, noeos: { enableObjectSlots: false } };
+const X_SHAPES = {
+  hostChild: (t) => `const a = <${t}><span>hi</span></${t}>;`,
+  hostAttrs: (t) => `const a = <${t} id={x} on={{ click: h }} {...s} />;`,
+  nested: (t) => `const a = <div><${t}>{x}</${t}><${t} /></div>;`,
+  slotIdent: (t) => `const a = <Comp><${t}>{x}</${t}></Comp>;`,
+};
+function xSrc(c) { return `const { x, s, h, Comp } = __env.bound;\n${X_SHAPES[c.shape](`x-t${c.i}`)}\n`; }
+
 function requests(c) {
+  if (c.sp === 'X') return [{ src: xSrc(c), opts: JSON.stringify(X_OPTS[c.first]) }, { src: xSrc(c), opts: JSON.stringify(X_OPTS[c.second]) }];
   let base;
   if (c.sp === 'G') base = { src: G.render(c), ts: !!c.ts, opts: JSON.stringify(c.o || {}) };
   else if (c.sp === 'T') base = { src: graphSrc(c.g, c.use), ts: true, opts: JSON.stringify({ resolveType: true }) };
@@ -72,6 +83,13 @@ function detOf(r) {
 }
 
 function judge(c, resps) {
+  if (c.sp === 'X') {
+    // result of the *second* request (after another option set was used on the same source in this process);
+    // the engine's second pass re-runs that request first in a fresh process and compares
+    const v = [];
+    for (const x of resps) if (x.panic || x.died || x.hang) v.push({ clause: 'no-panic', diff: 'panic', msg: JSON.stringify(x.panic || 'died') });
+    return { viol: v, obs: detOf(resps[1]), det: detOf(resps[1]), clauses: ['deterministic-across-requests'] };
+  }
   const r = resps[0];
   if (r.parse_error) return { skip: true };
   if (r.opts_error) return { engineError: 'option corner rejected: ' + r.opts_error };
@@ -111,11 +129,17 @@ function spaces(tier) {
         }
       },
     },
+    {
+      name: 'X:cross-request-interference',
+      bounds: { option_sets: Object.keys(X_OPTS), shapes: Object.keys(X_SHAPES), note: 'request A then request B (same source, different options) in one process; B is re-run first in a fresh process (second pass) and must give the same bytes; every case uses its own tag name' },
+      *gen() { let i = 0; for (const shape of Object.keys(X_SHAPES)) for (const first of Object.keys(X_OPTS)) for (const second of Object.keys(X_OPTS)) if (first !== second) yield { sp: 'X', i: i++, shape, first, second }; },
+    },
     { name: 'N:nesting-depth', bounds: { kinds: ['direct', 'container', 'component', 'attr'], depths: DEPTHS, stack: '8 MiB' }, *gen() { for (const kind of ['direct', 'container', 'component', 'attr']) for (const depth of DEPTHS) yield { sp: 'N', kind, depth }; } },
   ];
 }
 
 function* shrink(c) {
+  if (c.sp === 'X') { if (c.shape !== 'hostChild') yield Object.assign({}, c, { shape: 'hostChild' }); return; }
   if (c.sp === 'G') { for (const x of G.shrink(c)) yield Object.assign({ sp: 'G', expectDiag: gExpectDiag(x) }, x); return; }
   if (c.sp === 'N') { for (const d of DEPTHS) if (d < c.depth) yield Object.assign({}, c, { depth: d }); return; }
   // graphs: drop the last name if nothing refers to it; replace a definition by `lit`
@@ -132,7 +156,8 @@ module.exports = {
   rule: 'exhaustive enumeration of (G) the unusual-JSX grammar with every directive taking every attribute-value kind, (T) every reference graph of type declarations on ≤3 names over the definition menu (alias, union, intersection, indexed access, Pick/Omit/Partial, array/tuple, interface extends/member, function type) - cyclic graphs included - used as props annotation, SetupContext<E> annotation and as the type of one prop, (N) element nesting depths up to 256 in four nesting styles; each case is run through the real visitor four times in one process (twice plain, host mark offsets 1 and 7) and once more in a fresh process in reversed order: no panic, no process death, answer within the time cap, byte-identical (printed output, diagnostics) in all runs; malformed directive usage must produce an error diagnostic. Distinct = distinct result hashes.',
   assumptions: ['catch_unwind + process exit status + 5 s wall cap decide "returns"', '"does not loop" is decided as "answers within the cap"', 'nesting beyond 256 is not explored'],
   secondPass: true, detOf,
+  secondPassRequest: (c) => (c.sp === 'X' ? requests(c)[1] : requests(c)[0]),
   spaces, requests, judge, shrink,
-  caseKey: (c) => (c.sp === 'G' ? G.key(c) : c.sp === 'N' ? `N:${c.kind}×${c.depth}` : `T:${c.use}: ${graphKey(c.g)}`),
-  depth: (c) => (c.sp === 'G' ? c.attrs.length + (c.ch !== 'none') : c.sp === 'N' ? DEPTHS.indexOf(c.depth) : c.g.filter((d) => d.k !== 'lit' && d.k !== 'lits').length),
+  caseKey: (c) => (c.sp === 'X' ? `X:${c.shape}: ${c.first} then ${c.second}` : c.sp === 'G' ? G.key(c) : c.sp === 'N' ? `N:${c.kind}×${c.depth}` : `T:${c.use}: ${graphKey(c.g)}`),
+  depth: (c) => (c.sp === 'X' ? 1 : c.sp === 'G' ? c.attrs.length + (c.ch !== 'none') : c.sp === 'N' ? DEPTHS.indexOf(c.depth) : c.g.filter((d) => d.k !== 'lit' && d.k !== 'lits').length),
 };
